@@ -31,17 +31,22 @@ GATES = [
     "internal/storage/local.go|Delete|entry|c09.delete",
 ]
 
-ACTIONS = ["CycleStart", "RecoverKeep", "RecoverDrop", "FindCandidates", "JobReject", "JobStart", "Download",
+# RecoverKeep/RecoverDrop (cycle-start recovery) are reachable only in the negative-control constants: since e2ad6be the
+# manager resolves a crashed job's manifest itself, and the manager process is never killed in this model
+ACTIONS = ["CycleStart", "FindCandidates", "JobReject", "JobStart", "Download",
            "Compact", "Manifest", "UploadCopy", "UploadRename", "DelInput", "DelManifest", "KillSplit", "KillFail",
            "CycleEnd"]
 
 CODE = {0: "ok", 1: "unsafe-delete", 2: "dup", 3: "lost", 4: "foreign-or-altered"}
 
 
-def cfg_text(nfiles, minfiles, maxbatch, maxkills, maxcycles, emit, invs, view):
+def cfg_text(nfiles, minfiles, maxbatch, maxkills, maxcycles, emit, invs, view, as_written=False):
+    # as_written: the code before the fix commits e2ad6be / db8e9fa (negative control)
     return ("SPECIFICATION Spec\nCONSTANTS\n  NFiles = %d\n  MinFiles = %d\n  MaxBatch = %d\n  MaxKills = %d\n"
-            "  MaxCycles = %d\n  DedupModes = {FALSE, TRUE}\n  Emit = %s\nINVARIANTS %s\n%sCHECK_DEADLOCK FALSE\n"
-            % (nfiles, minfiles, maxbatch, maxkills, maxcycles,
+            "  MaxCycles = %d\n  DedupModes = {FALSE, TRUE}\n  RecoverOnCrash = %s\n  ListAllEntries = %s\n  Emit = %s\n"
+            "INVARIANTS %s\n%sCHECK_DEADLOCK FALSE\n"
+            % (nfiles, minfiles, maxbatch, maxkills, maxcycles, "FALSE" if as_written else "TRUE",
+               "TRUE" if as_written else "FALSE",
                "TRUE" if emit else "FALSE", invs, "VIEW view\n" if view else ""))
 
 
@@ -64,7 +69,7 @@ def run(ctx):
     # initial states of the same run. The generation run has no VIEW (the schedule history is part of the state), so it
     # visits a superset of the plain model's states and checks the same invariants: it IS the exhaustive check.
     if quick:
-        bounds = [("small", 4, 2, 4, 2, 3, 30), ("tiny", 2, 2, 4, 2, 3, 14), ("three", 3, 2, 2, 2, 3, 14)]
+        bounds = [("small", 4, 2, 4, 2, 3, 60), ("tiny", 2, 2, 4, 2, 3, 30), ("three", 3, 2, 2, 2, 3, 30)]
     else:
         bounds = [("small", 4, 2, 4, 2, 3, 160), ("tiny", 2, 2, 4, 2, 3, 60), ("three", 3, 2, 2, 2, 3, 70),
                   ("five", 5, 3, 5, 2, 3, 100), ("large", 6, 3, 4, 3, 3, 130)]
@@ -86,6 +91,8 @@ def run(ctx):
                          "invariants": ["TypeOK", "DeleteSafe"], "terminal_behaviours": len(gen.traces)})
         cand = []
         seen = set()
+        if label == "small":
+            directed_pool = [hist_to_cycles(h) for h in gen.traces if h[0]["dedup"]]
         for h in gen.traces:
             cyc = hist_to_cycles(h)
             dedup = bool(h[0]["dedup"])
@@ -117,6 +124,21 @@ def run(ctx):
                              "seed": ctx.seed, "cycles": cyc, "label": "%s/%s" % (label, m)})
                 n += 1
         mc_notes[-1]["schedules_replayed"] = n
+    # directed input for the open finding "compacted output carries no arc:tags": kill job 1 before its manifest, let the
+    # first half finish, kill the second half -> the next cycle compacts [raw3, raw4, half-output1]
+    want = [[1, 0, 1], [0], []]
+    hit = [s for s in scen if s["label"].startswith("small/") and s["dedup"] != "none"
+           and [[j["gate"] for j in c["jobs"]] for c in s["cycles"]] == want]
+    if not hit:
+        base = [c for c in directed_pool if [[j["gate"] for j in cc["jobs"]] for cc in c] == want]
+        if not base:
+            raise InfraError("schedule %s not among the behaviours of Gen_small" % want)
+        cyc = base[0]
+    else:
+        cyc = hit[0]["cycles"]
+    (_, nf, mf, mb, _, _, _) = bounds[0]
+    scen.append({"id": len(scen) + 1, "nfiles": nf, "minfiles": mf, "maxbatch": mb, "dedup": "tags_evolve",
+                 "seed": ctx.seed, "cycles": cyc, "label": "small/tags_evolve"})
     for a in ACTIONS:
         if fired.get(a, 0) == 0:
             raise InfraError("vacuous model: action %s never fired (coverage %s)" % (a, fired))
@@ -124,6 +146,13 @@ def run(ctx):
     (label, nf, mf, mb, mk, mcyc, _) = bounds[0]
     mp = ctx.tlc("compaction", "Compaction", "MCP.cfg", timeout=900, workers=4, allow_violation=True,
                  files={"MCP.cfg": cfg_text(nf, mf, mb, mk, mcyc, False, "ConservedAfterCleanCycle", True)})
+    # negative control: the mechanisms as written before the two fix commits must be rejected by TLC
+    nc = ctx.tlc("compaction", "Compaction", "MCP_aswritten.cfg", timeout=900, workers=4, allow_violation=True, coverage=True,
+                 files={"MCP_aswritten.cfg": cfg_text(nf, mf, mb, mk, mcyc, False, "ConservedAfterCleanCycle", True, as_written=True)})
+    if nc.violated != "ConservedAfterCleanCycle":
+        raise InfraError("negative control: the as-written mechanisms (no crash-time manifest recovery, .part listed) no longer "
+                         "violate ConservedAfterCleanCycle on the model (%s)" % nc.violated)
+    ctx.note("negative_control_as_written", {"violated": nc.violated, "distinct_until_counterexample": nc.distinct})
     ctx.note("tlc_model_check", mc_notes)
     ctx.note("actions_fired", fired)
     ctx.note("property_as_model_invariant", ("counterexample found (candidate schedule only): %s" % mp.violated)
